@@ -1,0 +1,18 @@
+//go:build verif
+
+package daemon
+
+import (
+	"github.com/AliyunContainerService/terway/pkg/aliyun/client"
+	"github.com/AliyunContainerService/terway/types/daemon"
+)
+
+// VerifGetPoolConfig exposes getPoolConfig to the verification harness.
+func VerifGetPoolConfig(cfg *daemon.Config, daemonMode string, limit *client.Limits) (*daemon.PoolConfig, error) {
+	return getPoolConfig(cfg, daemonMode, limit)
+}
+
+// VerifCheckInstance exposes checkInstance to the verification harness.
+func VerifCheckInstance(limit *client.Limits, daemonMode string, config *daemon.Config) (bool, bool) {
+	return checkInstance(limit, daemonMode, config)
+}
